@@ -14,7 +14,8 @@ type ReplaceReference struct {
 
 func (pass *ReplaceReference) Process(schemas []*ast.Schema) ([]*ast.Schema, error) {
 	visitor := Visitor{
-		OnRef: pass.processRef,
+		OnRef:         pass.processRef,
+		OnConstantRef: pass.processConstantRef,
 	}
 
 	return visitor.VisitSchemas(schemas)
@@ -28,6 +29,23 @@ func (pass *ReplaceReference) processRef(_ *Visitor, _ *ast.Schema, def ast.Type
 	newRef := ast.NewRef(pass.To.Package, pass.To.Object, ast.Trail(fmt.Sprintf("ReplaceReference[%s → %s]", def.Ref, pass.To)))
 	newRef.Nullable = def.Nullable
 	newRef.Default = def.Default
+	for hint, value := range def.Hints {
+		newRef.Hints[hint] = value
+	}
 
 	return newRef, nil
+}
+
+// constant references (`kind: Kind & "a"`) are usages of the reference too
+func (pass *ReplaceReference) processConstantRef(_ *Visitor, _ *ast.Schema, def ast.Type) (ast.Type, error) {
+	constantRef := def.AsConstantRef()
+	if !pass.From.MatchesRef(ast.RefType{ReferredPkg: constantRef.ReferredPkg, ReferredType: constantRef.ReferredType}) {
+		return def, nil
+	}
+
+	def.ConstantReference.ReferredPkg = pass.To.Package
+	def.ConstantReference.ReferredType = pass.To.Object
+	def.AddToPassesTrail(fmt.Sprintf("ReplaceReference[%s.%s → %s]", constantRef.ReferredPkg, constantRef.ReferredType, pass.To))
+
+	return def, nil
 }
